@@ -84,7 +84,8 @@ def get():
 
     def _carry(src, dst):
         try:
-            dst._parser_metadata = dict(src.parser_metadata)
+            dst.parser_metadata.clear()
+            dst.parser_metadata.update(src.parser_metadata)
         except Exception:  # noqa: BLE001
             pass
         return dst
